@@ -420,6 +420,94 @@ def sf_relatedness_weighted(colsum, idx, centre, nsamples):
     return f
 
 
+# ------------------------------------------------------------------------ trait statistics
+# Written from the docstrings' definitions on the inheritance indicator g itself (x is the 0/1
+# vector "sample i inherits from this allele / branch / node", obtained with one indicator
+# weight per sample), not from the weight-sum form the library uses.
+def _centre(col):
+    mu = Fr(sum(col)) / len(col)
+    return [c - mu for c in col]
+
+
+def sf_trait_covariance(cols):
+    """(sample covariance of g and w)^2 / 2 per atom; the unpolarised evaluation adds the
+    complement's equal share (trait_covariance docstring; docs/stats.md f(w) = w^2/(2(n-1)^2))."""
+    n = len(cols[0])
+    cen = [_centre(c) for c in cols]
+
+    def f(g):
+        return [(sum(gi * wi for gi, wi in zip(g, w)) / (n - 1)) ** 2 / 2 for w in cen]
+    return f
+
+
+def sf_trait_correlation(cols):
+    """squared Pearson correlation of g and w, halved; 0 where g is constant (p(1-p) = 0)."""
+    n = len(cols[0])
+    cen = [_centre(c) for c in cols]
+    var = [sum(x * x for x in w) / (n - 1) for w in cen]
+
+    def f(g):
+        gc = _centre(list(g))
+        vg = sum(x * x for x in gc) / (n - 1)
+        if vg == 0:
+            return [Fr(0)] * len(cen)
+        return [(sum(a * b for a, b in zip(gc, w)) / (n - 1)) ** 2 / (vg * vw) / 2
+                for w, vw in zip(cen, var)]
+    return f
+
+
+def _solve(A, b):
+    """exact Gaussian elimination; A square non-singular (lists of Fractions)."""
+    k = len(A)
+    M = [list(r) + [x] for r, x in zip(A, b)]
+    for c in range(k):
+        piv = next(r for r in range(c, k) if M[r][c] != 0)
+        M[c], M[piv] = M[piv], M[c]
+        pv = M[c][c]
+        M[c] = [x / pv for x in M[c]]
+        for r in range(k):
+            if r != c and M[r][c] != 0:
+                fct = M[r][c]
+                M[r] = [x - fct * y for x, y in zip(M[r], M[c])]
+    return [M[r][k] for r in range(k)]
+
+
+def _independent(cols):
+    """a maximal linearly independent prefix-greedy subset of the columns."""
+    out = []
+    for c in cols:
+        if _residual(c, out) is not None:
+            out.append(c)
+    return out
+
+
+def _residual(v, basis):
+    """v minus its least-squares projection on span(basis); None if that is the zero vector."""
+    if basis:
+        A = [[sum(a * b for a, b in zip(bi, bj)) for bj in basis] for bi in basis]
+        rhs = [sum(a * b for a, b in zip(bi, v)) for bi in basis]
+        coef = _solve(A, rhs)
+        r = [x - sum(c * bi[i] for c, bi in zip(coef, basis)) for i, x in enumerate(v)]
+    else:
+        r = list(v)
+    return r if any(x != 0 for x in r) else None
+
+
+def sf_trait_linear_model(cols, zcols):
+    """(coefficient of g in the least-squares fit w ~ 1 + g + Z)^2 / 2; 0 if g lies in the span
+    of the intercept and the covariates (trait_linear_model docstring)."""
+    n = len(cols[0])
+    basis = _independent([[Fr(1)] * n] + [list(z) for z in zcols])
+
+    def f(g):
+        r = _residual(list(g), basis)
+        if r is None:
+            return [Fr(0)] * len(cols)
+        d = sum(x * x for x in r)
+        return [(sum(a * b for a, b in zip(r, w)) / d) ** 2 / 2 for w in cols]
+    return f
+
+
 ONE_WAY = {"diversity": sf_diversity, "segregating_sites": sf_segregating_sites, "Y1": sf_Y1}
 K_WAY = {"divergence": (2, sf_divergence), "Y2": (2, sf_Y2), "f2": (2, sf_f2),
          "Y3": (3, sf_Y3), "f3": (3, sf_f3), "f4": (4, sf_f4)}
